@@ -16,23 +16,24 @@ theorem accept_sound (adv : List Byte → Nat) (bs : List Byte) (n : Node)
     (h : parseExpression adv bs = some n) : JsonText bs n :=
   Proofs.accept_sound adv bs n h
 
-/-- Completeness, provided segmentation never swallows an ASCII byte (`SafeAdv`). -/
-theorem accept_complete (adv : List Byte → Nat) (hs : SafeAdv adv) (bs : List Byte) (n : Node)
+/-- Completeness, for ANY grapheme segmentation: since the repair of the scanner (a cluster stops before a
+    quote, a backslash or a control character; "fix: json: a grapheme cluster cannot swallow the end of a
+    string") no assumption on `textseg` is needed any more. -/
+theorem accept_complete (adv : List Byte → Nat) (bs : List Byte) (n : Node)
     (h : JsonText bs n) : parseExpression adv bs = some n :=
-  Proofs.accept_complete adv hs bs n h
+  Proofs.accept_complete adv bs n h
 
-/-- `accept_iff_partial`: under `SafeAdv`, acceptance without error ⇔ JSON text, with the same value.
-    (Partial with respect to the property: UTF-8 validity of raw string bytes is not enforced by the code,
-    and `SafeAdv` fails for real grapheme segmentation on Unicode Prepend characters — both are recorded
-    findings, see `accept_iff_full_false` and known_findings.json.) -/
-theorem accept_iff_partial (adv : List Byte → Nat) (hs : SafeAdv adv) (bs : List Byte) (n : Node) :
+/-- Acceptance without error ⇔ JSON text, with the same value.
+    (Partial with respect to the property only in that UTF-8 validity of raw string bytes is not enforced by
+    the code — a recorded finding, see `accept_iff_full_false`.) -/
+theorem accept_iff_partial (adv : List Byte → Nat) (bs : List Byte) (n : Node) :
     parseExpression adv bs = some n ↔ JsonText bs n :=
-  ⟨accept_sound adv bs n, accept_complete adv hs bs n⟩
+  ⟨accept_sound adv bs n, accept_complete adv bs n⟩
 
 /-- `json.Parse` additionally requires an object or array root. -/
-theorem file_accept_iff_partial (adv : List Byte → Nat) (hs : SafeAdv adv) (bs : List Byte) (n : Node) :
+theorem file_accept_iff_partial (adv : List Byte → Nat) (bs : List Byte) (n : Node) :
     parseFile adv bs = some n ↔ (JsonText bs n ∧ ((∃ a, n = .obj a) ∨ (∃ a, n = .arr a))) :=
-  Proofs.file_accept_iff adv hs bs n
+  Proofs.file_accept_iff adv bs n
 
 /-- The full-strength statement of the property: accepted ⇔ (JSON text ∧ valid UTF-8). -/
 def AcceptIffFull (adv : List Byte → Nat) : Prop :=
@@ -44,8 +45,7 @@ theorem accept_iff_full_false : ¬ AcceptIffFull (fun _ => 1) := by
   have := (h [34, 255, 34]).mp (by decide)
   exact absurd this.2 (by unfold ValidUtf8; decide)
 
-/-- non-vacuity: a segmentation satisfying `SafeAdv` and a non-trivial accepted text -/
-example : SafeAdv (fun _ => 1) := by intro bs i h1 h2; have h2 : i < 1 := h2; omega
+/-- non-vacuity: a non-trivial accepted text -/
 example : parseExpression (fun _ => 1) [123, 34, 97, 34, 58, 91, 49, 44, 34, 92, 110, 34, 93, 125] =
     some (.obj [([97], .arr [.num 1 0, .str [10]])]) := by rfl
 
